@@ -61,7 +61,47 @@ func TabCopyLoop(p *load.Program) *report.RuleResult {
 	for _, b := range fn.Blocks {
 		for _, in := range b.Instrs {
 			c, ok := in.(ssa.CallInstruction)
-			if !ok || !c.Common().IsInvoke() {
+			if !ok {
+				continue
+			}
+			if !c.Common().IsInvoke() {
+				// an arm handed to a helper of the command (processContainer(in, typ)) that writes:
+				// the types that reach the call are written there
+				if g := load.Unwrap(c.Common().StaticCallee()); g != nil && ScopeCmd.has(p, g) && g != fn {
+					seenG := map[*ssa.Function]bool{}
+					var writesSomething func(h *ssa.Function, d int) bool
+					writesSomething = func(h *ssa.Function, d int) bool {
+						if h == nil || seenG[h] || d > 3 || len(h.Blocks) == 0 {
+							return false
+						}
+						seenG[h] = true
+						for _, hb := range h.Blocks {
+							for _, hin := range hb.Instrs {
+								hc, ok := hin.(ssa.CallInstruction)
+								if !ok {
+									continue
+								}
+								if hc.Common().IsInvoke() {
+									if ssau.TypeName(hc.Common().Value.Type()) == "Writer" && writes[hc.Common().Method.Name()] != nil {
+										return true
+									}
+									continue
+								}
+								if k := load.Unwrap(hc.Common().StaticCallee()); k != nil && ScopeCmd.has(p, k) && writesSomething(k, d+1) {
+									return true
+								}
+							}
+						}
+						return false
+					}
+					if writesSomething(g, 0) {
+						if vs, reach := ef.At(in); reach && vs.Known() {
+							for _, k := range vs.Values() {
+								written[k] = true
+							}
+						}
+					}
+				}
 				continue
 			}
 			m := c.Common().Method.Name()
